@@ -35,3 +35,13 @@ PROPS['C16'] = dict(
     unreached=[],
     explanation='',
 )
+
+PROPS['C07'] = dict(
+    level='other',
+    contracts=['base_oscinterface'],
+    drivers=[],
+    assumptions=[FLOATS],
+    trusted_base=[],
+    unreached=[],
+    explanation='',
+)
